@@ -1315,9 +1315,9 @@ func c09K3(c *Ctx) {
 			found++
 			// the nil edge must be infeasible: it is the fall-through of a string switch whose
 			// cases cover the key's whole domain.
-			cases, key := p.stringCasesOn(fn, func(o *Org) bool { return o.Kind == "field" && o.Field.Name() == "Type" })
+			cases, key := p.stringCasesOn(fn, func(o *Org) bool { return o.Kind == "field" && cn(o.Field) == "Type" })
 			if len(cases) == 0 {
-				c.Violation(name, p.InstrPos(cl), "nil-iface:"+cc.Method.Name(), "interface value that is nil on some path is invoked without a guard, and no covering switch was recognised")
+				c.Violation(name, p.InstrPos(cl), "nil-iface:"+cn(cc.Method), "interface value that is nil on some path is invoked without a guard, and no covering switch was recognised")
 				continue
 			}
 			var missing []string
@@ -1327,7 +1327,7 @@ func c09K3(c *Ctx) {
 				}
 			}
 			sort.Strings(missing)
-			c.Check(len(missing) == 0, name, p.InstrPos(cl), "nil-iface:"+cc.Method.Name(),
+			c.Check(len(missing) == 0, name, p.InstrPos(cl), "nil-iface:"+cn(cc.Method),
 				fmt.Sprintf("switch on %s has %d cases covering all %d field types of the shipped specs, so the unassigned (nil) arm is unreachable for them", key, len(cases), len(specTypes)),
 				fmt.Sprintf("interface value assigned in switch arms is invoked after the switch, but the switch on %s lacks field types %v that shipped specs declare: validating such a field calls a nil interface", key, missing))
 		}
